@@ -88,6 +88,9 @@ pub enum Outcome {
 /// one decoder call under catch_unwind with the allocation counter armed
 pub fn call(dec: Dec, bytes: &[u8]) -> (Outcome, usize) {
     let input = bytes.to_vec();
+    // (the witness copy outlives the decoder call: `input` itself is moved into the closure)
+    let witness = bytes.to_vec();
+    alloc::set_current(ALL.iter().position(|d| *d == dec).unwrap_or(99), witness.as_ptr(), witness.len());
     let base = alloc::arm();
     let r = panics::catch(move || -> bool {
         match dec {
@@ -117,6 +120,8 @@ pub fn call(dec: Dec, bytes: &[u8]) -> (Outcome, usize) {
         }
     });
     alloc::disarm();
+    alloc::set_current(99, std::ptr::null(), 0);
+    drop(witness);
     let peak = alloc::peak_above(base);
     match r {
         Ok(true) => (Outcome::Ok, peak),
@@ -380,6 +385,10 @@ pub async fn dump_corpus(seed: u64, path: &str) -> usize {
 }
 
 pub async fn run(ctx: &Ctx, rep: &mut Report) {
+    // a single allocation request of more than 1 GiB made by a decoder is reported by the
+    // allocator itself (witness file + exit code 97, turned into a violation by bin/check): the
+    // system may not be able to serve it, and the abort that follows cannot be caught
+    alloc::set_hard_cap(1 << 30, &format!("/verif/out/C10-alloc-{}.bin", std::process::id()));
     if let Some(path) = &ctx.replay {
         replay(path, rep);
         return;
